@@ -43,6 +43,31 @@ func debugDump(w *World, what string, args []string) {
 		for _, o := range r.Obls {
 			fmt.Println(o.Status, o.Pos, o.Key, o.Detail)
 		}
+	case "writeloops":
+		r := NewReport("C18", "quick", "/tmp/dbg")
+		r.W = w
+		var entries []*ssa.Function
+		for _, n := range []string{"(*sfnt.Font).Write", "(*sfnt.Font).WriteTrueTypePDF", "(*sfnt.Font).WriteOpenTypeCFFPDF", "(*cff.Font).Write", "header.Write"} {
+			if fn := w.Func(n); fn != nil {
+				entries = append(entries, fn)
+			}
+		}
+		var fns []*ssa.Function
+		for fn := range w.libReach(entries) {
+			fns = append(fns, fn)
+		}
+		sort.Slice(fns, func(i, j int) bool { return fnName(fns[i]) < fnName(fns[j]) })
+		runLoopTerm(w, r, newBoundsRun(w), fns, false)
+		ok, bad := 0, 0
+		for _, o := range r.Obls {
+			if o.Status == StOK {
+				ok++
+			} else {
+				bad++
+				fmt.Println(o.Pos, o.Key, "::", o.Detail)
+			}
+		}
+		fmt.Println("functions", len(fns), "recognised", ok, "unrecognised", bad)
 	case "flagreduce":
 		r := NewReport("C10", "quick", "/tmp/dbg")
 		r.W = w
